@@ -82,7 +82,9 @@ fn implicit_first_allele_phasing(src: &[u8]) -> Phasing {
 }
 
 fn explicit_first_allele_phasing(src: &[u8]) -> Phasing {
-    allele_phasing(src[0])
+    src.first()
+        .map(|&n| allele_phasing(n))
+        .unwrap_or(Phasing::Unphased)
 }
 
 fn allele_phasing(n: u8) -> Phasing {
